@@ -130,6 +130,9 @@ func (mr *msgReader) resetFlate() {
 	if mr.flateBufio == nil {
 		mr.flateBufio = getBufioReader(mr.readFunc)
 		mr.c.vObj("PoolGet", "fbr", mr.flateBufio)
+	} else {
+		// Drop whatever the previous message left unread (the padding after a BFINAL block).
+		mr.flateBufio.Reset(mr.readFunc)
 	}
 
 	if mr.flateContextTakeover() {
@@ -457,6 +460,15 @@ func (mr *msgReader) Read(p []byte) (n int, err error) {
 	// the final frame is consumed and the flate reader turns that into io.ErrUnexpectedEOF.
 	// A transport that ends mid-message surfaces as a wrapped EOF and must remain an error.
 	if err == io.EOF || err == io.ErrUnexpectedEOF && mr.fin && mr.flate {
+		if mr.flate {
+			// The flate reader stops at a block with BFINAL set (RFC 7692 7.2.3.4), possibly before
+			// the final frame of the message has been read. Consume the rest of the message so that
+			// the next message starts at a frame boundary.
+			err = mr.discardRest()
+			if err != nil {
+				return n, fmt.Errorf("failed to read: %w", err)
+			}
+		}
 		mr.putFlateReader()
 		return n, io.EOF
 	}
@@ -464,6 +476,20 @@ func (mr *msgReader) Read(p []byte) (n int, err error) {
 		return n, fmt.Errorf("failed to read: %w", err)
 	}
 	return n, nil
+}
+
+// discardRest reads the remaining frames of the current message and drops their payload.
+func (mr *msgReader) discardRest() error {
+	var buf [128]byte
+	for {
+		_, err := mr.read(buf[:])
+		if err == io.EOF {
+			return nil
+		}
+		if err != nil {
+			return err
+		}
+	}
 }
 
 func (mr *msgReader) read(p []byte) (int, error) {
